@@ -9,6 +9,7 @@ CONSTANTS
   Weak_ErrorAbortsPublish = FALSE
   Weak_BlockOnFullBuffer = TRUE
   Weak_UnsubLeavesQuery = FALSE
+  Weak_DoubleRemoveReleasesForeignRef = FALSE
 INIT Init
 NEXT Next
 INVARIANTS ExactDelivery ExplicitCancel RefCount NeverBlockedOnBuffered RegistryAgrees
